@@ -421,6 +421,11 @@ func (c *ctxT) hist(serve bool, ops []string, class string) {
 		// make sure Serve is reading before the first operation (a keep-alive is consumed at once)
 		if !t.feedWithin(" ", 2*time.Second) {
 			r.Line(line, "ERR serve does not read")
+			detail := "Serve, started on a freshly negotiated session, does not read from the connection"
+			if t.waitServe(0) {
+				detail = fmt.Sprintf("Serve, started on a freshly negotiated session (the negotiation context has been released), returned %q at once although the peer has not closed its stream", classifyRet(t.ret))
+			}
+			r.Fail("serve-returns", "serve-does-not-serve", lines, detail)
 			return
 		}
 	}
